@@ -108,6 +108,22 @@ Definition S_offdeg_from_eq : Prop :=
   acc_offdeg_from le cs p (enc_offs le cs p g sel) (enc_stream le cs p g sel rest) (N.of_nat k)
   = Some (skipn k (offdeg_spec le cs p g sel)).
 
+(** The same two scans with the degree ring as the code has it ([window] slots indexed by
+    [node mod window], pre-filled in ascending node order, not touched when the window is 0). *)
+Definition S_offdeg_ring_eq : Prop :=
+  forall le cs p g sel rest,
+  codes_ok cs = true -> Forall inc g -> valid_sel p [] g sel = true ->
+  acc_offdeg_ring le cs p (length g) (enc_stream le cs p g sel rest)
+  = Some (offdeg_spec le cs p g sel).
+
+Definition S_offdeg_from_ring_eq : Prop :=
+  forall le cs p g sel rest k,
+  codes_ok cs = true -> Forall inc g -> valid_sel p [] g sel = true ->
+  (k <= length g)%nat ->
+  acc_offdeg_from_ring le cs p (enc_offs le cs p g sel) (enc_stream le cs p g sel rest)
+    (N.of_nat k)
+  = Some (skipn k (offdeg_spec le cs p g sel)).
+
 (** The ring buffer of [window + 1] slots indexed by [node mod (window + 1)], a slot taken,
     cleared, refilled and put back per node ([next_successors], [Lender::next]), yields
     the graph. *)
